@@ -11,7 +11,7 @@ CONSTANTS
   ArmKinds = {"rhead", "rreceipt", "rtime"}
   RemineStatus = {0, 1}
   MidScanHeads = FALSE
-  MaxHeads = 3
+  MaxHeads = 2
   MaxMine = 1
   MaxPush = 0
   MaxReorg = 1
